@@ -73,7 +73,7 @@ package webrtc
 // mediaAdded) and does not write this package's memory.
 //@ func (*sdp.SessionDescription).WithMedia
 //@ trusted
-//@ props C07
+//@ props C07 C06
 //@ ghost mediaAdded += 1
 //@ modifies nothing
 
@@ -81,8 +81,14 @@ package webrtc
 // for which no codec is available is still added, rejected in place: port 0, the
 // transceiver's kind.
 //@ func addTransceiverSDP
-//@ props C07
+//@ props C07 C06
 //@ nosafety
+//@ ensures err == nil && ret0 ==> ghost(credCalls) == old(ghost(credCalls)) + 1
+//@ ensures err == nil && ret0 ==> ghost(fpCalls) == old(ghost(fpCalls)) + uint64(len(dtlsFingerprints))
+//@ loop 4 invariant ghost(fpCalls) == old(ghost(fpCalls)) + uint64(rangeindex + 1) && rangeindex < len(dtlsFingerprints) && ghost(credCalls) == old(ghost(credCalls)) + 1 && ghost(mediaAdded) == old(ghost(mediaAdded))
+//@ atcall (*sdp.MediaDescription).WithValueAttribute assert callarg1 == sdp.AttrKeyMID ==> callarg2 == midValue
+//@ atcall (*sdp.MediaDescription).WithValueAttribute assert callarg1 == sdp.AttrKeyConnectionSetup ==> callarg2 == dtlsRole.String()
+//@ atcall (*sdp.MediaDescription).WithICECredentials assert callarg1 == iceParams.UsernameFragment && callarg2 == iceParams.Password
 //@ atcall (*sdp.SessionDescription).WithMedia assert ghost(mediaAdded) == old(ghost(mediaAdded))
 //@ atcall (*sdp.SessionDescription).WithMedia assert len(codecs) == 0 ==> callarg1.MediaName.Port.Value == 0
 //@ atcall (*sdp.SessionDescription).WithMedia assert len(codecs) == 0 && (transceiver.kind == RTPCodecTypeAudio || transceiver.kind == RTPCodecTypeVideo) ==> callarg1.MediaName.Media == transceiver.kind.String()
@@ -90,16 +96,65 @@ package webrtc
 //@ ensures err != nil ==> ghost(mediaAdded) == old(ghost(mediaAdded))
 
 //@ func addDataMediaSection
-//@ props C07
+//@ props C07 C06
 //@ nosafety
+//@ ensures err == nil ==> ghost(credCalls) == old(ghost(credCalls)) + 1
+//@ ensures err == nil ==> ghost(fpCalls) == old(ghost(fpCalls)) + uint64(len(dtlsFingerprints))
+//@ atcall (*sdp.MediaDescription).WithValueAttribute assert callarg1 == sdp.AttrKeyMID ==> callarg2 == midValue
+//@ atcall (*sdp.MediaDescription).WithValueAttribute assert callarg1 == sdp.AttrKeyConnectionSetup ==> callarg2 == dtlsRole.String()
+//@ atcall (*sdp.MediaDescription).WithICECredentials assert callarg1 == iceParams.UsernameFragment && callarg2 == iceParams.Password
+//@ loop 0 invariant ghost(fpCalls) == old(ghost(fpCalls)) + uint64(rangeindex + 1) && rangeindex < len(dtlsFingerprints) && ghost(credCalls) == old(ghost(credCalls)) + 1
 //@ ensures err == nil ==> ghost(mediaAdded) == old(ghost(mediaAdded)) + 1
 //@ ensures err != nil ==> ghost(mediaAdded) == old(ghost(mediaAdded))
 
 // populateSDP: on success the description gained exactly len(mediaSections) m-sections,
 // one per entry, in list order.
 //@ func populateSDP
-//@ props C07
+//@ props C07 C06
 //@ nosafety
 //@ requires descr != nil
+//@ loop 0 step shouldAddID && ufbool("bundleok", section.id) ==> bundleCount == loophead(bundleCount) + 1 && bundleValue == loophead(bundleValue) + (" " + section.id)
+//@ loop 0 step !(shouldAddID && ufbool("bundleok", section.id)) ==> bundleCount == loophead(bundleCount) && bundleValue == loophead(bundleValue)
+//@ loop 0 step shouldAddID && !ufbool("bundleok", section.id) ==> descr.MediaDescriptions[len(descr.MediaDescriptions)-1].MediaName.Port.Value == 0
+//@ atcall (*sdp.SessionDescription).WithValueAttribute assert callarg1 == sdp.AttrKeyGroup ==> callarg2 == bundleValue && bundleCount > 0
+//@ ensures err == nil && !mediaDescriptionFingerprint ==> ghost(sessFpCalls) == old(ghost(sessFpCalls)) + uint64(len(dtlsFingerprints))
+//@ loop 1 invariant ghost(sessFpCalls) == old(ghost(sessFpCalls)) + uint64(rangeindex + 1)
+//@ loop 1 invariant rangeindex < len(dtlsFingerprints)
 //@ ensures err == nil ==> ghost(mediaAdded) == old(ghost(mediaAdded)) + uint64(len(mediaSections))
 //@ loop 0 invariant ghost(mediaAdded) == old(ghost(mediaAdded)) + uint64(rangeindex + 1) && rangeindex < len(mediaSections)
+
+// ---- C06: what every accepted m-section carries, and the BUNDLE bookkeeping
+// Assumed contracts on the pion/sdp builders: they append attributes to the description
+// being built (events counted by ghost counters) and do not write this package's memory.
+//@ func (*sdp.MediaDescription).WithICECredentials
+//@ trusted
+//@ props C06 C07
+//@ ghost credCalls += 1
+//@ modifies nothing
+//@ func (*sdp.MediaDescription).WithFingerprint
+//@ trusted
+//@ props C06 C07
+//@ ghost fpCalls += 1
+//@ modifies nothing
+//@ func (*sdp.SessionDescription).WithFingerprint
+//@ trusted
+//@ props C06 C07
+//@ ghost sessFpCalls += 1
+//@ modifies nothing
+//@ func (*sdp.MediaDescription).WithPropertyAttribute
+//@ trusted
+//@ props C06 C07
+//@ modifies nothing
+//@ func (*sdp.MediaDescription).WithValueAttribute
+//@ trusted
+//@ props C06 C07
+//@ modifies nothing
+//@ func (*sdp.SessionDescription).WithValueAttribute
+//@ trusted
+//@ props C06 C07
+//@ modifies nothing
+//@ func localfn populateSDP.bundleMatch
+//@ trusted
+//@ props C06 C07
+//@ ensures result == ufbool("bundleok", arg0)
+//@ modifies nothing
